@@ -376,13 +376,13 @@ class TokenizerState:
         return (self.end_progs[-1].mode is not None) and self.end_progs[-1].mode.parenlevel == self.parenlev
 
     def in_continued_string(self) -> bool:
-        return (
-            bool(self.end_progs)
-            and (
-                (self.line[-2:] == "\\\n")  # single quote should have line continuation at the end
-                or (self.line[-3:] == "\\\r\n")
-            )
-        )
+        """A single-quoted string goes on only when the line ends in a backslash that is not itself escaped."""
+        if not self.end_progs:
+            return False
+        body = self.line[:-2] if self.line.endswith("\r\n") else self.line[:-1] if self.line.endswith("\n") else None
+        if body is None:
+            return False
+        return (len(body) - len(body.rstrip("\\"))) % 2 == 1
 
 
 @dataclasses.dataclass(slots=True)
@@ -684,10 +684,7 @@ def handle_end_progs(state: TokenizerState) -> Iterator[TokenInfo]:
     if state.pos != pos:  # tokens were produced: come back for the rest of the line
         return
 
-    if (
-        (state.pos == 0)  # called at start of the line
-        or ((state.in_multi_line_string()) or (state.in_continued_string()))
-    ):
+    if state.in_multi_line_string() or state.in_continued_string():
         state.end_progs[-1].join_line(state)
         state.pos = state.max
     else:  # a single-quoted string that is neither closed nor continued on this line
